@@ -60,6 +60,13 @@ var payloads = map[string]string{
 	"U3":   "- type: as\n  hard: 9\n  soft: 1\n",
 	"U4":   "- type: STACK\n  hard: 8\n  soft: 8\n",
 	"Uempty": "[]",
+	// present but empty annotations: they select their scope and describe nothing
+	"Dempty": "", "Mempty": "", "Cempty": "",
+	// unlimited (RLIM_INFINITY) on either side
+	"Uinf1": "- type: nofile\n  hard: 18446744073709551615\n  soft: 65536\n",
+	"Uinf2": "- type: nofile\n  hard: 65536\n  soft: 18446744073709551615\n",
+	"Uinf3": "- type: core\n  hard: 18446744073709551615\n  soft: 18446744073709551615\n",
+	"Uinf4": "- type: as\n  hard: 9223372036854775808\n  soft: 1\n",
 	"Ubad":   "- type: [unclosed\n",
 	"Utype":  "- type: bogus\n  hard: 1\n  soft: 1\n",
 	"Utype2": "- type: RLIMIT_\n  hard: 1\n  soft: 1\n",
